@@ -15,11 +15,14 @@ EXPLANATION = (
     "Bounded symbolic verification (all metric values, NaN flags and arrival orders symbolic; shapes bounded): "
     "get_top_list against its specification for rungs of up to 4 entries, and the real "
     "SynchronousHyperbandBracketManager driven through every order of up to 7 result events with 2 jobs in flight "
-    "on three rung systems (quick: 4-5 events, thorough: 6-7).  Labelled bounded: no unbounded obligations are claimed for C05."
+    "on three rung systems (quick: 4-5 events, thorough: 6-7).  Unbounded obligations are claimed for one function only: "
+    "SynchronousBracket.next_free_slot on a current rung of any length (slot order, once each, never beyond the size); "
+    "everything else is labelled bounded."
 )
 ASSUMPTIONS = [
     "A-REAL with an explicit NaN flag for metric values (failed jobs)",
     "bounded: rung sizes <= 4, <= 3 rungs, <= 7 result events, 2 concurrent jobs",
+    "next_free_slot proof units: bracket at its last rung (one materialised rung of unbounded length); the heterogeneous tail of _rungs is not typed",
     "numpy version 2.x semantics for removed aliases (np.NAN)",
 ]
 
@@ -350,3 +353,70 @@ class SyncHB_on_trial_error:
         out["no-longer-pending"] = tid not in s.self._trial_to_pending_slot
         out["other-pending-slots-untouched"] = forall(range(0, len(ks)), lambda i: (ks[i] in s.self._trial_to_pending_slot) if ks[i] != tid else True)
         return out
+
+
+# -- the bracket's slot accounting for a current rung of ANY length (unbounded obligations) -----------------------------
+#    ``_rungs`` is heterogeneous (materialised rungs up to current_rung, (size, level) pairs beyond); the proof units take
+#    the bracket at its last rung (one materialised rung, contents unbounded), where no promotion follows.
+
+SLOT_T = Tup(Opt(Int), Opt(NanRealT))
+declare_class("SyncBracket1", SYNC_BR + ":SynchronousHyperbandBracket", dict(_mode=Enum("min", "max"), _first_free_pos=Int, current_rung=Int, _rungs=List(Tup(List(SLOT_T), Int))))
+
+
+def bracket1_pre(b):
+    return {
+        "last-rung": b.current_rung == 0 or b.current_rung == 1,
+        "first-free-pos-in-range": 0 <= b._first_free_pos and (b.current_rung == 1 or b._first_free_pos <= len(b._rungs[0][0])),
+        # slots beyond the first free position are untouched
+        "free-slots-empty": b.current_rung == 1 or forall(range(0, len(b._rungs[0][0])), lambda i: b._rungs[0][0][i][1] is None if i >= b._first_free_pos else True),
+    }
+
+
+@contract(SYNC_BR + ":SynchronousBracket.next_free_slot", props=("C05",))
+class Bracket_next_free_slot:
+    label = "SynchronousHyperbandBracket.next_free_slot"
+    params = dict(self=Obj("SyncBracket1"))
+    proof_shapes = [{"self._rungs": 1}]
+    shapes = [{"self._rungs": 1, "*": k} for k in range(0, 4)]
+    returns = Opt(Obj("SlotInRung"))
+
+    def requires(s):
+        return bracket1_pre(s.self)
+
+    def ensures(old, s, result):
+        done = old.self.current_rung == 1
+        if done:
+            return {"complete-bracket-hands-out-nothing": result is None, "frame": unchanged(s.self, old.self)}
+        rung = old.self._rungs[0][0]
+        pos = old.self._first_free_pos
+        if pos >= len(rung):
+            return {"full-rung-hands-out-nothing": result is None, "frame": unchanged(s.self, old.self)}
+        return {
+            "next-slot-in-order": result is not None and result.slot_index == pos and result.rung_index == 0,
+            "level-of-the-rung": result.level == old.self._rungs[0][1],
+            "slot-is-free-and-keeps-its-trial": result.metric_val is None and result.trial_id == rung[pos][0],
+            "handed-out-once": s.self._first_free_pos == pos + 1,
+            "rung-unchanged": unchanged(s.self._rungs, old.self._rungs) and s.self.current_rung == 0,
+        }
+
+
+@contract(SYNC_BR + ":SynchronousBracket.num_pending_slots", props=("C05",))
+class Bracket_num_pending_slots:
+    label = "SynchronousHyperbandBracket.num_pending_slots"
+    params = dict(self=Obj("SyncBracket1"))
+    unbounded = False  # sum over a slice of the rung: no unbounded encoding of sum (needs induction); bounded stand-in only
+    shapes = [{"self._rungs": 1, "*": k} for k in range(0, 4)]
+    returns = Int
+
+    def requires(s):
+        return bracket1_pre(s.self)
+
+    def ensures(old, s, result):
+        if old.self.current_rung == 1:
+            return {"complete-bracket-has-no-pending-slot": result == 0, "frame": unchanged(s.self, old.self)}
+        rung = old.self._rungs[0][0]
+        return {
+            # pending = handed out (below the first free position) and not yet occupied
+            "counts-handed-out-unoccupied-slots": result == count(range(0, old.self._first_free_pos), lambda i: rung[i][1] is None),
+            "frame": unchanged(s.self, old.self),
+        }
